@@ -250,3 +250,10 @@ mod time;
 #[cfg(feature = "datalog-macro")]
 #[cfg_attr(feature = "docsrs", doc(cfg(feature = "datalog-macro")))]
 pub mod macros;
+
+/// verification hooks (guarded, off by default): re-exports for an external test harness
+#[cfg(biscuit_auth_biscuit_rust_verif)]
+pub mod verif_hooks {
+    pub use crate::crypto::{Block, ExternalSignature, Signature, TokenNext};
+    pub use crate::time::verif_clock;
+}
